@@ -1,5 +1,6 @@
 import TF.Proofs.Codec
 import TF.Proofs.GenBridgeCodec
+import TF.Proofs.GenBridgeCodecGeneric
 /-!
 # C13 — decoding is total, strict and resource-bounded on arbitrary sequences
 
@@ -384,5 +385,75 @@ theorem gen_rejects_wrong_length (r : List Nat) (n : Nat) :
     | _ :: _ :: _, _ => exact ⟨rfl, rfl, rfl⟩
 example : Loops.codec_u64_decode [0] = .error "SequenceTooShort" ∧ Loops.codec_u128_decode [0, 0, 0, 0, 0] = .error "SequenceTooLong" ∧
     Loops.codec_u32_decode [0, 0] = .error "SequenceTooLong" := by decide +kernel
+
+end TF.C13
+
+/-! ## regenerated-from-source bridge: the generic combinators (BT8)
+
+The list decoders and the `Vec<T>` / `[T; N]` / `Option<T>` / `Box<T>` / `PhantomData<T>` decoders regenerated from the source
+(`TF/Gen/CodecGeneric.lean`, `tools/rs2lean_codec.py`; bridges in `TF/Props/C03.lean`, proofs in
+`TF/Proofs/GenBridgeCodecGeneric.lean`).  `Item G toVal (decode ty)`: the regenerated decoder `G` (on `u64` words, into
+`Res = ok | err | panic`) is observed as the model's `decode ty` on the canonical values.  The strictness / totality
+theorems of this file are restated for such decoders and, directly, for the regenerated combinators with an arbitrary
+item codec. -/
+namespace TF.C13
+open TF.Codec TF.Gen TF.GenBridge.Codec TF.GenBridge.CodecG TF.RustStd
+
+/-- **transfer of `decode_never_panics`**: a regenerated decoder observed as `decode ty` never panics on fewer than `2^32`
+    words when `ty` has no zero-width list items … -/
+theorem gen_decode_never_panics {ε α : Type} (ty : Ty) (G : List Nat → Res ε α) (toVal : α → Val)
+    (h : Item G toVal (decode ty)) (hz : NoZeroWidthItems ty) (r : List Nat) (hw : Words r) (hl : r.length < 2^32) :
+    (G r).noPanic = true :=
+  item_noPanic h r hw (decode_never_panics ty (vals r) hz (canon_vals r hw) (by rw [vals_length]; exact hl))
+
+/-- … and the excluded class is real in the regenerated code (F10): with a zero-width item type the regenerated `Vec`
+    decoder panics on `[n]`, whatever the item decoder is -/
+theorem gen_zero_width_vec_panics {ε α : Type} (T_decode : List Nat → Res ε α) (into : ε → DynErr) (x : Nat) :
+    (Loops.codec_decode_list_static (some 0) T_decode into x []).noPanic = false := by
+  simp [Loops.codec_decode_list_static, Res.unwrapO, TF.RustStd.checked_mul, Res.need, Res.noPanic]
+
+/-- **transfer of `vec_count_bounded`**: the regenerated `Vec` decoder accepts a count only if at least that many words
+    follow (no allocation from the untrusted count) -/
+theorem gen_vec_count_bounded {ε α : Type} (t : Ty) (T_decode : List Nat → Res ε α) (into : ε → DynErr) (toVal : α → Val)
+    (h : Item T_decode toVal (decode t)) (x : Nat) (rest : List Nat) (hw : Words (x :: rest)) (l : List α)
+    (hg : Loops.codec_vec_decode (staticLength t) T_decode into (x :: rest) = .ok l) : bfe_value x ≤ rest.length := by
+  have := item_ok (vec_item t T_decode into toVal h) (x :: rest) hw l hg
+  rw [vals_cons] at this
+  have := vec_count_bounded t _ _ _ this
+  rwa [vals_length] at this
+
+/-- **transfer of `rejects_inconsistent_count`**: statically sized items, remaining length ≠ count · width ⇒ rejected -/
+theorem gen_rejects_inconsistent_count {ε α : Type} (t : Ty) (w : Nat) (hs : staticLength t = some w)
+    (T_decode : List Nat → Res ε α) (into : ε → DynErr) (toVal : α → Val) (h : Item T_decode toVal (decode t))
+    (x : Nat) (rest : List Nat) (hw : Words (x :: rest)) (hne : rest.length ≠ bfe_value x * w) :
+    ∃ e, Loops.codec_vec_decode (staticLength t) T_decode into (x :: rest) = .err e := by
+  obtain ⟨k, hk⟩ := rejects_inconsistent_count t w (bfe_value x) (vals rest) hs (by rw [vals_length]; exact hne)
+  exact item_rejects (vec_item t T_decode into toVal h) (x :: rest) hw k (by rw [vals_cons]; exact hk)
+
+/-- **transfer of `rejects_option_tag` / `rejects_none_with_payload`**: the regenerated `Option` decoder rejects a tag `> 1`
+    and a `None` tag followed by anything -/
+theorem gen_rejects_option_tag {ε α : Type} (t : Ty) (T_decode : List Nat → Res ε α) (into : ε → DynErr) (toVal : α → Val)
+    (h : Item T_decode toVal (decode t)) (x : Nat) (rest : List Nat) (hw : Words (x :: rest)) :
+    (1 < bfe_value x → ∃ e, Loops.codec_option_decode T_decode into (x :: rest) = .err e) ∧
+    (bfe_value x = 0 → rest ≠ [] → ∃ e, Loops.codec_option_decode T_decode into (x :: rest) = .err e) := by
+  refine ⟨fun h1 => ?_, fun h0 hne => ?_⟩
+  · exact item_rejects (option_item t T_decode into toVal h) (x :: rest) hw .range
+      (by rw [vals_cons]; exact rejects_option_tag t _ _ h1)
+  · cases rest with
+    | nil => exact absurd rfl hne
+    | cons y ys =>
+      exact item_rejects (option_item t T_decode into toVal h) (x :: y :: ys) hw .tooLong
+        (by rw [vals_cons, vals_cons, h0]; exact rejects_none_with_payload t _ _)
+/-- **transfer of `rejects_poly_trailing_zero`**: whatever the regenerated `Polynomial` decoder accepts has a non-zero last
+    coefficient (also when there is exactly one coefficient) -/
+theorem gen_rejects_poly_trailing_zero {ε α : Type} (t : Ty) (T_decode : List Nat → Res ε α) (into : ε → DynErr) (isz : α → Bool)
+    (toVal : α → Val) (h : Item T_decode toVal (decode t)) (hz : ∀ a, isz a = valIsZero (toVal a)) (r : List Nat)
+    (hw : Words r) (l : List α) (hg : Loops.codec_poly_decode (staticLength t) T_decode into isz r = .ok l) :
+    lastIsZero (l.map toVal) = false := by
+  have := item_ok (poly_item t T_decode into isz toVal h hz) r hw l hg
+  obtain ⟨cs, hcs, hl⟩ := rejects_poly_trailing_zero t _ _ this
+  cases hcs; exact hl
+example : (Loops.codec_decode_list_static (some 0) (fun _ => (Res.ok () : Res String Unit)) (fun _ => ⟨""⟩) 3 []).noPanic = false :=
+  gen_zero_width_vec_panics _ _ 3
 
 end TF.C13
